@@ -324,6 +324,9 @@ func (x *Exec) modTarget(st *State, fr *Frame, ex ast.Expr, f func(kind, sort, r
 			case "files":
 				f("ghost:store", "", "", nil)
 				return
+			case "clock": // the callee reads the wall clock: now() refers to its reading afterwards
+				f("ghost:clock", "", "", nil)
+				return
 			case "heap":
 				if tid, ok := n.Args[0].(*ast.Ident); ok {
 					if sort := x.sortByTypeName(fr.fn, tid.Name); sort != "" {
@@ -451,6 +454,8 @@ func (x *Exec) callByContract(st *State, fr *Frame, callee *ssa.Function, c *Con
 					x.storeGet(st)
 					st.ghost["store"] = TV{x.storeSort(), st.fresh("store", x.storeSort())}
 					st.ghost["exists"] = TV{"(Array " + SSeqI + " Bool)", st.fresh("exists", "(Array "+SSeqI+" Bool)")}
+				case kind == "ghost:clock":
+					st.ghost["clock"] = TV{SInt, st.fresh("now", SInt)}
 				case strings.HasPrefix(kind, "ghost:"):
 					key := strings.TrimPrefix(kind, "ghost:")
 					n := x.freshBytes(st, "g")
@@ -471,6 +476,13 @@ func (x *Exec) callByContract(st *State, fr *Frame, callee *ssa.Function, c *Con
 		v := x.symVal(st, fmt.Sprintf("%s_r%d", short, i), t)
 		if pv, ok := v.(PtrV); ok && pv.Ref != "" && c.Fresh {
 			st.assume(tOr(tEq(pv.Ref, "0"), tCmp("<=", oldTop, pv.Ref)))
+		}
+		if iv, ok := v.(IfaceV); ok && iv.Sym != "" && !isErrorType(t) {
+			// an object handed back through an interface carries its own (unknown) output
+			// stream, so that the callee's clauses about out(result) can be stated and used
+			if _, has := st.ghost["out:"+iv.Sym]; !has {
+				st.ghost["out:"+iv.Sym] = TV{SSeqI, x.freshBytes(st, "rout")}
+			}
 		}
 		res = append(res, v)
 	}
